@@ -369,17 +369,18 @@ theorem tickPeers_sim {env : Env} {ps ps' : Peers} {sent : List (Nat × Packet)}
         simp only [slot, List.filter_append]
         by_cases hea : e.2.addr = a
         · -- the head is `a`'s peer; nobody behind it has this address
-          have hnone : slot es a = none := by
+          subst hea
+          have hnone : slot es e.2.addr = none := by
             rw [slot_none_iff]
             intro x hx hxa
-            exact hn.1 (List.mem_map.2 ⟨x, hx, by simp [hxa, hea]⟩)
-          have := ih3 a
+            exact hn.1 (List.mem_map.2 ⟨x, hx, hxa⟩)
+          have := ih3 e.2.addr
           simp only [hnone] at this
-          simp only [hea, if_true] at hft ⊢
+          rw [if_pos rfl] at hft
+          simp only [if_true]
           refine ⟨c, o, hc, rfl, ?_⟩
-          rw [this.2]
-          simp only [List.append_nil]
-          convert hft using 2
+          rw [this.2, List.append_nil]
+          exact hft
         · simp only [hea, if_false] at hft ⊢
           have := ih3 a
           rw [show (List.filter (fun y => decide (y.1 = a)) (List.map (fun x => (e.2.addr, x)) o.sent)) = [] from hft]
